@@ -318,7 +318,7 @@ impl Resolver<'_> {
                 // yes, this is not a transform, but this is the most appropriate place for it
 
                 let [list] = unpack::<1>(func.args);
-                let list = list.kind.into_tuple().unwrap();
+                let list = list.try_cast(|x| x.into_tuple(), Some("tuple_every"), "a tuple")?;
 
                 let mut res = None;
                 for item in list {
@@ -334,7 +334,9 @@ impl Resolver<'_> {
                 // yes, this is not a transform, but this is the most appropriate place for it
 
                 let [func, list] = unpack::<2>(func.args);
-                let list_items = list.kind.into_tuple().unwrap();
+                let list_items = (list.kind.clone())
+                    .into_tuple()
+                    .or_else(|_| list.clone().try_cast(|x| x.into_tuple(), Some("tuple_map"), "a tuple"))?;
 
                 let list_items = list_items
                     .into_iter()
@@ -356,8 +358,8 @@ impl Resolver<'_> {
                 // yes, this is not a transform, but this is the most appropriate place for it
 
                 let [a, b] = unpack::<2>(func.args);
-                let a = a.kind.into_tuple().unwrap();
-                let b = b.kind.into_tuple().unwrap();
+                let a = a.try_cast(|x| x.into_tuple(), Some("tuple_zip"), "a tuple")?;
+                let b = b.try_cast(|x| x.into_tuple(), Some("tuple_zip"), "a tuple")?;
 
                 // Zipping tuples of different lengths drops the tail. That is fine between known
                 // columns (compare on the shared prefix), but a wildcard stands for an unknown
@@ -383,8 +385,11 @@ impl Resolver<'_> {
                 // yes, this is not a transform, but this is the most appropriate place for it
 
                 let [list] = unpack::<1>(func.args);
-                let list = list.kind.into_tuple().unwrap();
-                let [a, b]: [Expr; 2] = list.try_into().unwrap();
+                let span = list.span;
+                let list = list.try_cast(|x| x.into_tuple(), Some("_eq"), "a tuple")?;
+                let [a, b]: [Expr; 2] = list.try_into().map_err(|_| {
+                    Error::new_simple("_eq expected a tuple of two items").with_span(span)
+                })?;
 
                 let res = maybe_binop(Some(a), &["std", "eq"], Some(b)).unwrap();
                 return Ok(res);
